@@ -49,7 +49,14 @@ func (c17) Plan(tier string) []mon.RunSpec {
 		// cold starts: 20 processes per level that run one case each
 		{Flavour: "race", Levels: raceLv, Every: 5, Shards: 20}}
 }
-func (c17) CaseCPUBudget(string) float64 { return 1800 }
+func (c17) CaseCPUBudget(tier string) float64 {
+	// a case uses 5-20 CPU-seconds (times ten under the race detector); the
+	// budget only has to tell a spinning goroutine from a slow machine
+	if tier == "thorough" {
+		return 900
+	}
+	return 400
+}
 func (c17) Assumptions() []string {
 	return []string{"memory accesses made by assembly are not instrumented by the race detector; a race confined to assembly is visible only through the digest comparison"}
 }
